@@ -9,7 +9,7 @@ import core
 from props import answers
 from props.c18 import lean_order_worlds
 
-THEOREMS = ["InfOCF.C17_front_loop_exact", "InfOCF.paretoLoop_inv", "InfOCF.C17_pareto_box", "InfOCF.C17_rank_is_cost", "InfOCF.C17_front_sound_complete", "InfOCF.C17_cinf_accepted",
+THEOREMS = ["InfOCF.C17_front_loop_exact", "InfOCF.C17_front_loop_total", "InfOCF.paretoLoop_inv", "InfOCF.C17_pareto_box", "InfOCF.C17_rank_is_cost", "InfOCF.C17_front_sound_complete", "InfOCF.C17_cinf_accepted",
             "InfOCF.isCRepB_iff", "InfOCF.mem_boxVectors", "InfOCF.C05_base_iff", "InfOCF.C18_accept_iff"]
 RULE = ("random strongly consistent bases (1-4 atoms, 1-5 conditionals; unfalsifiable conditionals, single-conditional bases, ties): "
         "PreOCF.init_random_min_c_rep must construct; its impacts are checked by the driver (non-negative, c-representation, Pareto-minimal "
